@@ -94,10 +94,17 @@ type BlockVC struct {
 	Done  bool
 }
 
+type PreciseMod struct {
+	Arr   string
+	Base  ssa.Value // loop-invariant slice / object / map whose entry changes
+	Slice bool
+}
+
 type Loop struct {
 	Header *ssa.BasicBlock
 	Blocks map[*ssa.BasicBlock]bool
 	Mods   map[string]bool
+	PMods  []PreciseMod // arrays of Mods that change only at these (loop-invariant) bases
 	Ord    int
 	Label  string
 	Invs   []*Clause
@@ -557,7 +564,17 @@ func (c *FnCtx) typeFacts(v Val, st *State) string {
 			}
 			return sAnd(sOr(alts...), sx("<", sx("ipay", v.T), st.alloc), sx("<=", "0", sx("ipay", v.T)), sx("<=", "0", sx("itag", v.T)), c.noTypedNil(v.T))
 		}
-		return sAnd(sx("<=", "0", sx("itag", v.T)), sImp(sEq(sx("itag", v.T), "0"), sEq(sx("ipay", v.T), "0")), c.noTypedNil(v.T))
+		extra := []string{sx("<=", "0", sx("itag", v.T)), sImp(sEq(sx("itag", v.T), "0"), sEq(sx("ipay", v.T), "0")), c.noTypedNil(v.T)}
+		if it, ok := v.GT.Underlying().(*types.Interface); ok && !it.Empty() {
+			// Go's type system: a value of a non-empty interface type never has a dynamic type that
+			// does not implement it (in particular not int / string / bool)
+			for _, bt := range []types.Type{types.Typ[types.Int], types.Typ[types.String], types.Typ[types.Bool]} {
+				if !types.Implements(bt, it) {
+					extra = append(extra, sNot(sEq(sx("itag", v.T), sInt(int64(c.U.tagOf(bt))))))
+				}
+			}
+		}
+		return sAnd(extra...)
 	case *types.Basic:
 		if u.Kind() == types.String {
 			return sx("<=", "0", sx(c.ufun("strlen", []Sort{SInt}, SInt), v.T))
@@ -720,6 +737,7 @@ func (c *FnCtx) findLoops() {
 				c.V.instrMods(in, inLoop, l.Mods)
 			}
 		}
+		c.preciseLoopMods(l)
 		c.autoInvariants(l)
 		c.autoFrameInvariants(l)
 		// labels: block comment of header e.g. "for.loop", "rangeindex.loop"; source label via DebugRef is not available, so
@@ -1009,13 +1027,21 @@ func (c *FnCtx) autoInvariants(l *Loop) {
 // autoFrameInvariants: inside a function with a precise modifies clause every loop keeps the
 // frame: outside the declared locations the arrays it modifies are as at function entry.
 func (c *FnCtx) autoFrameInvariants(l *Loop) {
+	if c.con == nil || !c.con.HasMod {
+		return
+	}
 	declared := c.declaredMods()
 	k := 0
-	for n, ms := range declared {
-		if !l.Mods[n] {
-			continue
+	var names []string
+	for n := range l.Mods {
+		if n != "*" {
+			names = append(names, n)
 		}
-		n, ms := n, ms
+	}
+	sort.Strings(names)
+	for _, n := range names {
+		ms := declared[n]
+		n := n
 		k++
 		cl := &Clause{Kind: "invariant", Text: "auto frame: " + n, Loop: fmt.Sprint(l.Ord), Ord: 200 + k}
 		cl.Auto = func(get func(v interface{}) string) string { return "" }
@@ -1030,5 +1056,66 @@ func (c *FnCtx) autoFrameInvariants(l *Loop) {
 			return f
 		}
 		l.Invs = append(l.Invs, cl)
+	}
+}
+
+// preciseLoopMods: an array that the loop changes only by element stores into loop-invariant
+// slices (x[i] = v), field stores on loop-invariant objects (p.f = v) or updates of loop-invariant
+// maps is havocked only at those bases at the loop header.
+func (c *FnCtx) preciseLoopMods(l *Loop) {
+	inLoop := func(in ssa.Instruction) bool { return l.Blocks[in.Block()] }
+	invariantVal := func(v ssa.Value) bool {
+		switch x := v.(type) {
+		case *ssa.Parameter, *ssa.FreeVar, *ssa.Const, *ssa.Global:
+			return true
+		default:
+			if in, ok := x.(ssa.Instruction); ok {
+				return !l.Blocks[in.Block()]
+			}
+		}
+		return false
+	}
+	precise := map[string][]PreciseMod{}
+	imprecise := map[string]bool{}
+	for b := range l.Blocks {
+		for _, in := range b.Instrs {
+			one := map[string]bool{}
+			c.V.instrMods(in, inLoop, one)
+			if len(one) == 0 {
+				continue
+			}
+			handled := false
+			if st, ok := in.(*ssa.Store); ok {
+				switch a := st.Addr.(type) {
+				case *ssa.IndexAddr:
+					if sl, isSlice := a.X.Type().Underlying().(*types.Slice); isSlice && invariantVal(a.X) {
+						n := backArrName(sl.Elem())
+						precise[n] = append(precise[n], PreciseMod{Arr: n, Base: a.X, Slice: true})
+						handled = true
+					}
+				case *ssa.FieldAddr:
+					if pt := derefType(a.X.Type()); pt != nil && invariantVal(a.X) {
+						if _, isFA := a.X.(*ssa.FieldAddr); !isFA {
+							if _, isIA := a.X.(*ssa.IndexAddr); !isIA {
+								n := fieldArrName(pt, a.Field)
+								precise[n] = append(precise[n], PreciseMod{Arr: n, Base: a.X})
+								handled = true
+							}
+						}
+					}
+				}
+			}
+			if !handled {
+				for n := range one {
+					imprecise[n] = true
+				}
+			}
+		}
+	}
+	for n, pms := range precise {
+		if imprecise[n] || !l.Mods[n] {
+			continue
+		}
+		l.PMods = append(l.PMods, pms...)
 	}
 }
